@@ -663,14 +663,29 @@ func optConfigs() []optConfig {
 			}
 		}
 	}
+	// the options that only ask for additional output (diagnostics, SSA / circuit listings in every format) must not
+	// touch the circuit either
+	cs = append(cs, optConfig{"Yao/prune=false/mult=0/diagnostics+listings", utils.TargetYao, false, 0},
+		optConfig{"GMW/prune=true/mult=0/diagnostics+listings", utils.TargetGMW, true, 0})
 	return cs
 }
+
+type discardWC struct{}
+
+func (discardWC) Write(p []byte) (int, error) { return len(p), nil }
+func (discardWC) Close() error                { return nil }
 
 func (c optConfig) params() *utils.Params {
 	p := utils.NewParams()
 	p.Target = c.target
 	p.OptPruneGates = c.prune
 	p.CircMultArrayTreshold = c.thresh
+	if strings.HasSuffix(c.name, "listings") {
+		p.Diagnostics = true
+		p.SSAOut, p.SSADotOut = discardWC{}, discardWC{}
+		p.CircOut, p.CircDotOut, p.CircSvgOut = discardWC{}, discardWC{}, discardWC{}
+		p.CircFormat = "mpclc"
+	}
 	return p
 }
 
